@@ -306,6 +306,111 @@ fn hist_json(h: &[Op]) -> Value {
          "readable": h.iter().map(describe).collect::<Vec<_>>()})
 }
 
+/// A workspace that is larger than one GC slice in both dimensions: more than 100 checked modules
+/// (NUM_MODULE_MARKED_PER_SLICE) and more than 10 000 managed strings (NUM_SWEEP_UNIT), so that
+/// marking rounds and sweep cycles span several edits and overlap. Every history of `depth` edits
+/// over a small menu; after every edit every module is formatted and hovered at a few positions
+/// (formatting prints every identifier: a string the collector freed while it is still referenced
+/// aborts the request).
+fn big_workspace_histories(depth: usize, violations: &mut Vec<(String, String, Value)>) -> (u64, u64) {
+  let module_text = |i: usize, variant: usize| -> String {
+    let mut t = format!("class ClassNumber{i}WithAVeryLongName {{\n");
+    for j in 0..100 {
+      t.push_str(&format!("  function functionNumber{j}OfClassNumber{i}Variant{variant}(): int = {j}\n"));
+    }
+    t.push_str("}\n");
+    t
+  };
+  // exactly one marking slice worth of modules at first: sweep cycles do start, and the menu can
+  // then push the module count over the slice size while a cycle is in flight
+  let n_initial = 100usize;
+  // menu: re-save one module unchanged, change it (100 fresh names), add a new module, remove one
+  let menu = ["resave(M0)", "change(M0)", "change(all)", "add(M200)", "add(M201..M204)", "remove(M1)", "rename(M2->M300)"];
+  let mut histories: Vec<Vec<usize>> = vec![vec![]];
+  let mut level: Vec<Vec<usize>> = vec![vec![]];
+  for _ in 0..depth {
+    let mut next = vec![];
+    for h in &level {
+      for o in 0..menu.len() {
+        let mut h2 = h.clone();
+        h2.push(o);
+        next.push(h2);
+      }
+    }
+    histories.extend(next.iter().cloned());
+    level = next;
+  }
+  let results: Vec<(u64, Option<(String, String, Value)>)> = histories
+    .par_iter()
+    .map(|h| {
+      let mut queries = 0u64;
+      let r = guarded(|| {
+        let mut heap = Heap::new();
+        let mut sources = HashMap::new();
+        let mut refs: HashMap<usize, ModuleReference> = HashMap::new();
+        for i in 0..n_initial {
+          let m = mod_ref(&mut heap, &format!("M{i}"));
+          refs.insert(i, m);
+          sources.insert(m, module_text(i, 0));
+        }
+        for i in [200usize, 201, 202, 203, 204, 300] {
+          refs.insert(i, mod_ref(&mut heap, &format!("M{i}")));
+        }
+        let mut state = ServerState::new(heap, false, sources);
+        let mut variant = 1;
+        for (step, o) in h.iter().enumerate() {
+          match *o {
+            0 => state.update(vec![(refs[&0], module_text(0, 0))]),
+            1 => {
+              state.update(vec![(refs[&0], module_text(0, variant))]);
+              variant += 1;
+            }
+            2 => {
+              // every module gets 100 fresh names: all live names now sit beyond the first sweep unit
+              state.update((0..n_initial).map(|i| (refs[&i], module_text(i, variant))).collect());
+              variant += 1;
+            }
+            3 => state.update(vec![(refs[&200], module_text(200, 0))]),
+            4 => state.update((201..=204).map(|i| (refs[&i], module_text(i, 0))).collect()),
+            5 => state.remove(&[refs[&1]]),
+            _ => state.rename_module(vec![(refs[&2], refs[&300])]),
+          }
+          let mods: Vec<ModuleReference> = state.all_modules().into_iter().copied().collect();
+          for m in mods {
+            queries += 3;
+            let name = m.pretty_print(&state.heap);
+            let q = guarded(|| {
+              let _ = rewrite::format_entire_document(&state, &m);
+              let _ = query::hover(&state, &m, Position(1, 14));
+              let _ = query::folding_ranges(&state, &m);
+            });
+            if let Err(e) = q {
+              return Some((
+                format!("big-workspace:{e}"),
+                format!("after {} (step {step}) a request on {name} panicked: {e}", h.iter().map(|o| menu[*o]).collect::<Vec<_>>().join(" . ")),
+                json!({"big_workspace_history": h.iter().map(|o| menu[*o]).collect::<Vec<_>>()}),
+              ));
+            }
+          }
+        }
+        None
+      });
+      match r {
+        Ok(v) => (queries, v),
+        Err(e) => (queries, Some((format!("big-workspace:edit:{e}"), format!("an edit of {:?} panicked: {e}", h.iter().map(|o| menu[*o]).collect::<Vec<_>>()), json!({"big_workspace_history": h.iter().map(|o| menu[*o]).collect::<Vec<_>>()})))),
+      }
+    })
+    .collect();
+  let mut q = 0;
+  for (n, v) in results {
+    q += n;
+    if let Some(v) = v {
+      violations.push(v);
+    }
+  }
+  (histories.len() as u64, q)
+}
+
 fn main() {
   let run = Run::from_args("C11", "model_checking");
   if let Some(path) = run.replay.clone() {
@@ -326,6 +431,13 @@ fn main() {
       None => println!("replay: history survives ({} queries)", stats.queries),
     }
     run.finish(json!({"states":1,"transitions":hist.len(),"traces_validated_against_impl":1,"samples":[hist_json(&hist)]}), vec![]);
+  }
+
+  // the big workspace (GC slices overlap): all histories of 2 (quick) / 3 (thorough) edits
+  let mut big_violations = vec![];
+  let (big_histories, big_queries) = big_workspace_histories(if run.quick() { 2 } else { 3 }, &mut big_violations);
+  for (sig, msg, payload) in big_violations {
+    run.violation(&sig, &msg, payload);
   }
 
   // depth = number of edits after the initial server
@@ -443,6 +555,7 @@ fn main() {
     "queries_with_nonempty_answer": stats.some_results,
     "per_query_kind_calls_and_nonempty": stats.per_kind.iter().map(|(k,(a,b))| (k.to_string(), json!([a,b]))).collect::<BTreeMap<_,_>>(),
     "exhaustive": skipped == 0,
+    "big_workspace": {"modules": "100, growing to 105", "managed_strings": "> 10 400", "histories": big_histories, "requests": big_queries},
     "content_menu": TEXTS.iter().map(|t| t.0).collect::<Vec<_>>(),
     "explanation": "stateless exploration: every edit history up to the depth bound from every initial server is executed on a fresh real ServerState, with the complete query sweep (8 position queries at every line/column incl. out-of-range, 3 per-module queries, on present, absent, renamed and never-existing modules) after every edit; each edit runs the production GC slice. `states` counts distinct history prefixes (no merging).",
   });
